@@ -210,7 +210,7 @@ def run(ctx):
     if getattr(ctx, "replay", None):
         return ctx.replay_script(ctx.replay)
     quick = ctx.tier == "quick"
-    failed = ctx.lean_stage(["SfProps.C08"])
+    failed = ctx.lean_stage(["SfProps.C08", "SfProps.C08Refine"])
     found = False
     ctx.run_regressions()
     found = bool(ctx.violations)
